@@ -32,7 +32,7 @@ impl<T> Clone for Node<T> {
     fn clone(&self) -> (r: Self) ensures r == *self { unimplemented!() }
 }
 pub mod executable {
-    pub use super::{Selection, SelectionSet, FragmentSpread};
+    pub use super::{Selection, SelectionSet, FragmentSpread, Fragment};
 }
 pub struct SelectionSet { pub selections: Vec<Selection> }
 pub enum Selection { Field(Node<Field>), FragmentSpread(Node<FragmentSpread>), InlineFragment(Node<InlineFragment>) }
@@ -44,33 +44,208 @@ pub struct Fragment { pub name: Name, pub selection_set: SelectionSet }
 pub struct FragmentMap { x: u8 }
 impl FragmentMap {
     // IndexMap<Name, Node<Fragment>>::get: the fragment stored under that name carries that name (ExecutableDocument's invariant)
+    pub uninterp spec fn view(&self) -> Map<Name, Node<Fragment>>;
     #[verifier::external_body]
-    pub fn get(&self, k: &Name) -> (r: Option<&Node<Fragment>>) ensures r is Some ==> (*r->0).0.name == *k { unimplemented!() }
+    pub fn get(&self, k: &Name) -> (r: Option<&Node<Fragment>>)
+        ensures match r { Some(f) => self@.dom().contains(*k) && *f == self@[*k] && f.0.name == *k, None => !self@.dom().contains(*k) }
+    { unimplemented!() }
 }
 pub struct ExecutableDocument { pub fragments: FragmentMap }
+pub struct SourceSpan { pub x: u64 }
+impl SourceSpan {
+    #[verifier::external_body]
+    pub fn recompose(a: Option<SourceSpan>, b: Option<SourceSpan>) -> Option<SourceSpan> { unimplemented!() }
+}
+impl<T> Node<T> {
+    #[verifier::external_body]
+    pub fn location(&self) -> Option<SourceSpan> { unimplemented!() }
+}
+impl Name {
+    #[verifier::external_body]
+    pub fn location(&self) -> Option<SourceSpan> { unimplemented!() }
+}
+pub enum DiagnosticData {
+    RecursiveFragmentDefinition { head_location: Option<SourceSpan>, name: Name, trace: Vec<Node<FragmentSpread>> },
+    DeeplyNestedType { name: Name, describe_type: &'static str },
+}
+pub struct DiagnosticEntry { pub location: Option<SourceSpan>, pub data: DiagnosticData }
+pub struct DiagnosticList { pub entries: Vec<DiagnosticEntry> }
+impl DiagnosticList {
+    pub fn push(&mut self, location: Option<SourceSpan>, data: DiagnosticData)
+        ensures final(self).entries@ == old(self).entries@.push(DiagnosticEntry { location, data })
+    { self.entries.push(DiagnosticEntry { location, data }) }
+}
 #[verifier::external_body]
 #[verifier::reject_recursive_types(K)]
 pub struct HashSet<K> { k: core::marker::PhantomData<K> }
 impl<'a> HashSet<&'a Name> {
+    pub uninterp spec fn view(&self) -> Set<Name>;
     #[verifier::external_body]
-    pub fn insert(&mut self, k: &'a Name) -> (r: bool) { unimplemented!() }
+    pub fn insert(&mut self, k: &'a Name) -> (r: bool) ensures final(self)@ == old(self)@.insert(*k), r == !old(self)@.contains(*k) { unimplemented!() }
+    #[verifier::external_body]
+    pub fn default() -> (r: Self) ensures r@ == Set::<Name>::empty() { unimplemented!() }
+}
+// the same set with owned names (present so that a variant of the code that stores clones is judged, not rejected)
+impl HashSet<Name> {
+    pub uninterp spec fn view(&self) -> Set<Name>;
+    #[verifier::external_body]
+    pub fn insert(&mut self, k: Name) -> (r: bool) ensures final(self)@ == old(self)@.insert(k), r == !old(self)@.contains(k) { unimplemented!() }
 }
 ''' + GUARD_MODEL
 
+SPEC = r'''
+// ---------------- specification: "fragment spreads must not form cycles" (https://spec.graphql.org/October2021/#sec-Fragment-spreads-must-not-form-cycles) ----------------
+/// every fragment spread anywhere in the first n selections (through fields and inline fragments) names a member of `s`
+pub open spec fn spreads_in(v: Seq<Selection>, n: int, s: Set<Name>) -> bool decreases v, n {
+    if n <= 0 || n > v.len() { true } else {
+        spreads_in(v, n - 1, s) && match v[n - 1] {
+            Selection::Field(f) => spreads_in(f.0.selection_set.selections@, f.0.selection_set.selections@.len() as int, s),
+            Selection::InlineFragment(i) => spreads_in(i.0.selection_set.selections@, i.0.selection_set.selections@.len() as int, s),
+            Selection::FragmentSpread(sp) => s.contains(sp.0.fragment_name),
+        }
+    }
+}
+pub open spec fn all_spreads_in(ss: &SelectionSet, s: Set<Name>) -> bool { spreads_in(ss.selections@, ss.selections@.len() as int, s) }
+/// every member of `s` outside `grey` that is a defined fragment spreads only members of `s`: nothing leads out of `s`
+pub open spec fn closed(doc: &ExecutableDocument, s: Set<Name>, grey: Set<Name>) -> bool {
+    forall|b: Name| #![trigger s.contains(b)] s.contains(b) && !grey.contains(b) && doc.fragments@.dom().contains(b) ==> all_spreads_in(&doc.fragments@[b].0.selection_set, s)
+}
+pub proof fn lemma_spreads_in_mono(v: Seq<Selection>, n: int, s: Set<Name>, t: Set<Name>)
+    requires spreads_in(v, n, s), s.subset_of(t)
+    ensures spreads_in(v, n, t)
+    decreases v, n
+{
+    if n <= 0 || n > v.len() { } else {
+        lemma_spreads_in_mono(v, n - 1, s, t);
+        match v[n - 1] {
+            Selection::Field(f) => lemma_spreads_in_mono(f.0.selection_set.selections@, f.0.selection_set.selections@.len() as int, s, t),
+            Selection::InlineFragment(i) => lemma_spreads_in_mono(i.0.selection_set.selections@, i.0.selection_set.selections@.len() as int, s, t),
+            Selection::FragmentSpread(sp) => { },
+        }
+    }
+}
+pub proof fn lemma_closed_mono(doc: &ExecutableDocument, s: Set<Name>, t: Set<Name>, grey: Set<Name>)
+    requires closed(doc, s, grey), s.subset_of(t),
+             forall|b: Name| #![trigger t.contains(b)] t.contains(b) && !s.contains(b) && !grey.contains(b) && doc.fragments@.dom().contains(b) ==> all_spreads_in(&doc.fragments@[b].0.selection_set, t)
+    ensures closed(doc, t, grey)
+{
+    assert forall|b: Name| #![trigger t.contains(b)] t.contains(b) && !grey.contains(b) && doc.fragments@.dom().contains(b) implies all_spreads_in(&doc.fragments@[b].0.selection_set, t) by {
+        if s.contains(b) { let ss = doc.fragments@[b].0.selection_set; lemma_spreads_in_mono(ss.selections@, ss.selections@.len() as int, s, t); }
+    }
+}
+pub proof fn lemma_push_to_set(p: Seq<Name>, n: Name)
+    ensures p.push(n).to_set() =~= p.to_set().insert(n)
+{
+    let q = p.push(n);
+    assert forall|x: Name| q.to_set().contains(x) <==> p.to_set().insert(n).contains(x) by {
+        if q.contains(x) { let i = choose|i: int| 0 <= i < q.len() && q[i] == x; if i < p.len() { assert(p[i] == x); assert(p.contains(x)); } }
+        if p.contains(x) { let i = choose|i: int| 0 <= i < p.len() && p[i] == x; assert(q[i] == x); assert(q.contains(x)); }
+        if x == n { assert(q[p.len() as int] == x); assert(q.contains(x)); }
+    }
+}
+/// the state of the search: the root is never marked; everything on the path below the root is; nothing leads out of the marked set except through the path
+pub open spec fn search_inv(doc: &ExecutableDocument, path: Seq<Name>, seen: Set<Name>) -> bool {
+    path.len() >= 1 && !seen.contains(path[0]) && (forall|k: int| 1 <= k < path.len() ==> seen.contains(#[trigger] path[k])) && closed(doc, seen, path.to_set())
+}
+
+// ---- what "no cycle through the root" means, and why the final state of a search that reported nothing implies it ----
+/// a fragment spread named b occurs somewhere in the first n selections (through fields and inline fragments)
+pub open spec fn occurs(v: Seq<Selection>, n: int, b: Name) -> bool decreases v, n {
+    if n <= 0 || n > v.len() { false } else {
+        occurs(v, n - 1, b) || match v[n - 1] {
+            Selection::Field(f) => occurs(f.0.selection_set.selections@, f.0.selection_set.selections@.len() as int, b),
+            Selection::InlineFragment(i) => occurs(i.0.selection_set.selections@, i.0.selection_set.selections@.len() as int, b),
+            Selection::FragmentSpread(sp) => sp.0.fragment_name == b,
+        }
+    }
+}
+/// fragment a (defined) spreads fragment b somewhere in its selection set
+pub open spec fn spreads(doc: &ExecutableDocument, a: Name, b: Name) -> bool {
+    doc.fragments@.dom().contains(a) && occurs(doc.fragments@[a].0.selection_set.selections@, doc.fragments@[a].0.selection_set.selections@.len() as int, b)
+}
+/// w is a chain of spreads from root back to root
+pub open spec fn cycle_through(doc: &ExecutableDocument, root: Name, w: Seq<Name>) -> bool {
+    w.len() >= 2 && w[0] == root && w.last() == root && forall|k: int| 0 <= k < w.len() - 1 ==> spreads(doc, #[trigger] w[k], w[k + 1])
+}
+pub proof fn lemma_occurs_marked(v: Seq<Selection>, n: int, b: Name, s: Set<Name>)
+    requires occurs(v, n, b), spreads_in(v, n, s)
+    ensures s.contains(b)
+    decreases v, n
+{
+    if n <= 0 || n > v.len() { } else {
+        if occurs(v, n - 1, b) { lemma_occurs_marked(v, n - 1, b, s); } else {
+            match v[n - 1] {
+                Selection::Field(f) => lemma_occurs_marked(f.0.selection_set.selections@, f.0.selection_set.selections@.len() as int, b, s),
+                Selection::InlineFragment(i) => lemma_occurs_marked(i.0.selection_set.selections@, i.0.selection_set.selections@.len() as int, b, s),
+                Selection::FragmentSpread(sp) => { },
+            }
+        }
+    }
+}
+/// every fragment on a chain of spreads that starts at the root is marked
+pub proof fn lemma_chain_stays_marked(doc: &ExecutableDocument, root: Name, s: Set<Name>, w: Seq<Name>, k: int)
+    requires search_inv(doc, seq![root], s), doc.fragments@.dom().contains(root), all_spreads_in(&doc.fragments@[root].0.selection_set, s),
+             w.len() >= 2, w[0] == root, forall|j: int| 0 <= j < w.len() - 1 ==> spreads(doc, #[trigger] w[j], w[j + 1]), 1 <= k < w.len()
+    ensures s.contains(w[k])
+    decreases k
+{
+    let a = w[k - 1];
+    assert(spreads(doc, w[k - 1], w[k - 1 + 1]));
+    let ss = doc.fragments@[a].0.selection_set;
+    if k == 1 { lemma_occurs_marked(ss.selections@, ss.selections@.len() as int, w[k], s); }
+    else {
+        lemma_chain_stays_marked(doc, root, s, w, k - 1);
+        assert(s.contains(a));
+        assert(seq![root].to_set().contains(a) ==> a == root) by { if seq![root].contains(a) { let i = choose|i: int| 0 <= i < seq![root].len() && seq![root][i] == a; } }
+        assert(a != root);
+        assert(all_spreads_in(&ss, s));
+        lemma_occurs_marked(ss.selections@, ss.selections@.len() as int, w[k], s);
+    }
+}
+/// C18: if the search from `root` reports nothing, `root` is on no cycle of fragment spreads
+pub proof fn lemma_nothing_reported_means_no_cycle(doc: &ExecutableDocument, root: Name, s: Set<Name>)
+    requires search_inv(doc, seq![root], s), doc.fragments@.dom().contains(root), all_spreads_in(&doc.fragments@[root].0.selection_set, s)
+    ensures forall|w: Seq<Name>| !cycle_through(doc, root, w)
+{
+    assert forall|w: Seq<Name>| !cycle_through(doc, root, w) by {
+        if cycle_through(doc, root, w) { lemma_chain_stays_marked(doc, root, s, w, w.len() - 1); assert(seq![root][0] == root); }
+    }
+}
+'''
+
 UNIT = {
     "name": "fragment_cycles",
-    "properties": ["C21"],
+    "properties": ["C21", "C18"],
     "parts": [
-        PRELUDE,
+        PRELUDE, SPEC,
         dict(file=FR, kind="fn", name="detect_fragment_cycles", inside_fn="validate_fragment_cycles", props=["C21"], n_loops=1,
              rewrites=[("for selection in &selection_set.selections {", "let mut __i: usize = 0; while __i < selection_set.selections.len() { let selection = &selection_set.selections[__i]; __i += 1;", 1),
                        ("path_from_root.first() == Some(&spread.fragment_name)", "first_is(path_from_root, &spread.fragment_name)", 1),
                        (".map_err(|error| error.trace(spread))", ".map_err(|error: CycleError<executable::FragmentSpread>| -> (r: CycleError<executable::FragmentSpread>) { error.trace(spread) })", "*")],
              clauses=[("requires", "within_the_limit", "old(path_from_root).path@.len() <= old(path_from_root).limit@"),
+                      ("requires", "search_state", "search_inv(document, old(path_from_root).path@, old(seen)@)", ["C18"]),
                       ("ensures", "path_restored", "final(path_from_root).path@ == old(path_from_root).path@ && final(path_from_root).limit@ == old(path_from_root).limit@"),
+                      ("ensures", "no_error_means_every_spread_below_is_marked_and_nothing_leads_out_of_the_marked_set",
+                       "r is Ok ==> search_inv(document, old(path_from_root).path@, final(seen)@) && old(seen)@.subset_of(final(seen)@) && all_spreads_in(selection_set, final(seen)@)", ["C18"]),
+                      ("ensures", "at_the_root_no_error_means_no_cycle_through_the_root",
+                       "(r is Ok && old(path_from_root).path@.len() == 1 && document.fragments@.dom().contains(old(path_from_root).path@[0]) && document.fragments@[old(path_from_root).path@[0]].0.selection_set == *selection_set) "
+                       "==> forall|w: Seq<Name>| !cycle_through(document, old(path_from_root).path@[0], w)", ["C18"]),
                       ("decreases", None, "old(path_from_root).limit@ + 1 - old(path_from_root).path@.len(), selection_set")],
              loops=[dict(invariant=[("bounds", "__i <= selection_set.selections@.len()"),
-                                    ("path_kept", "path_from_root.path@ == old(path_from_root).path@ && path_from_root.limit@ == old(path_from_root).limit@ && path_from_root.path@.len() <= path_from_root.limit@")],
-                         decreases="selection_set.selections@.len() - __i")]),
+                                    ("path_kept", "path_from_root.path@ == old(path_from_root).path@ && path_from_root.limit@ == old(path_from_root).limit@ && path_from_root.path@.len() <= path_from_root.limit@"),
+                                    ("search_state", "search_inv(document, path_from_root.path@, seen@) && old(seen)@.subset_of(seen@)", ["C18"]),
+                                    ("spreads_so_far_are_marked", "spreads_in(selection_set.selections@, __i as int, seen@)", ["C18"])],
+                         decreases="selection_set.selections@.len() - __i")],
+             hints=[("loop_body_start", 0, "let ghost seen0 = seen@; proof { assert forall|n: Name| seen0.contains(n) implies #[trigger] seen0.insert(n) == seen0 by { assert(seen0.insert(n) =~= seen0); } }"),
+                    ("before", "if let Some(fragment) = document.fragments.get(&spread.fragment_name) {",
+                     "proof { let name = spread.0.fragment_name; let p = path_from_root.path@; lemma_push_to_set(p, name); lemma_closed_mono(document, seen0, seen@, p.push(name).to_set()); }"),
+                    ("loop_body_end", 0, "proof { let v = selection_set.selections@; lemma_spreads_in_mono(v, __i - 1, seen0, seen@); }"),
+                    ("after_loop", 0, "proof { let p = path_from_root.path@; if p.len() == 1 && document.fragments@.dom().contains(p[0]) && document.fragments@[p[0]].0.selection_set == *selection_set { assert(p =~= seq![p[0]]); lemma_nothing_reported_means_no_cycle(document, p[0], seen@); } }")]),
+        dict(file=FR, kind="fn", name="validate_fragment_cycles", props=["C18"],
+             rewrites=[(r"(?s)    fn detect_fragment_cycles<'doc>\(.*?\n    \}\n\n(?=    let mut visited)", "", 1, "re")],      # the nested function is extracted on its own (above); here its definition is cut out of the enclosing body
+             clauses=[("requires", "def_is_a_fragment_of_the_document", "document.fragments@.dom().contains(def.0.name) && document.fragments@[def.0.name] == *def"),
+                      ("ensures", "nothing_reported_means_no_cycle_through_this_fragment",
+                       "final(diagnostics).entries@.len() == old(diagnostics).entries@.len() ==> forall|w: Seq<Name>| !cycle_through(document, def.0.name, w)", ["C18"])],
+             ),
     ],
 }
